@@ -1424,6 +1424,15 @@ func (bc *BlockChain) reorg(oldBlock, newBlock *types.Block) error {
 		addedTxs = append(addedTxs, newChain[i].Transactions()...)
 	}
 
+	// Delete any canonical number assignments above the new head (the new
+	// chain may be shorter than the one it replaces)
+	for i := bc.CurrentBlock().NumberU64() + 1; ; i++ {
+		if GetCanonicalHash(bc.db, i) == (common.Hash{}) {
+			break
+		}
+		DeleteCanonicalHash(bc.db, i)
+	}
+
 	// regardless of WriteTxLookupEntries error
 	diff := types.TxDifference(deletedTxs, addedTxs)
 
